@@ -21,14 +21,18 @@ type Block struct {
 	Default int
 }
 
-func T() *Block                           { return &Block{Kind: "task", Default: -1} }
-func E() *Block                           { return &Block{Kind: "empty", Default: -1} }
-func Seq(a, b *Block) *Block              { return &Block{Kind: "seq", Kids: []*Block{a, b}, Default: -1} }
-func Par(kids ...*Block) *Block           { return &Block{Kind: "par", Kids: kids, Default: -1} }
-func LoopB(b *Block) *Block               { return &Block{Kind: "loop", Kids: []*Block{b}, Default: -1} }
-func SubB(b *Block) *Block                { return &Block{Kind: "sub", Kids: []*Block{b}, Default: -1} }
-func Side() *Block                        { return &Block{Kind: "side", Default: -1} }
-func Dec() *Block                         { return &Block{Kind: "dec", Default: -1} }
+func T() *Block                 { return &Block{Kind: "task", Default: -1} }
+func E() *Block                 { return &Block{Kind: "empty", Default: -1} }
+func Seq(a, b *Block) *Block    { return &Block{Kind: "seq", Kids: []*Block{a, b}, Default: -1} }
+func Par(kids ...*Block) *Block { return &Block{Kind: "par", Kids: kids, Default: -1} }
+func LoopB(b *Block) *Block     { return &Block{Kind: "loop", Kids: []*Block{b}, Default: -1} }
+func SubB(b *Block) *Block      { return &Block{Kind: "sub", Kids: []*Block{b}, Default: -1} }
+func Side() *Block              { return &Block{Kind: "side", Default: -1} }
+func Dec() *Block               { return &Block{Kind: "dec", Default: -1} }
+
+// Drop is a task whose only outgoing flow is conditional: with the condition false the token ends
+// at the task, silently (a termination trace and no flow trace).
+func Drop() *Block                        { return &Block{Kind: "drop", Default: -1} }
 func Xor(def int, kids ...*Block) *Block  { return &Block{Kind: "xor", Kids: kids, Default: def} }
 func Incl(def int, kids ...*Block) *Block { return &Block{Kind: "incl", Kids: kids, Default: def} }
 
@@ -42,6 +46,8 @@ func (b *Block) String() string {
 		return "side"
 	case "dec":
 		return "dec"
+	case "drop":
+		return "drop"
 	}
 	var ks []string
 	for _, k := range b.Kids {
@@ -78,7 +84,7 @@ func (b *Block) depth() int {
 			d = x
 		}
 	}
-	if b.Kind == "task" || b.Kind == "empty" || b.Kind == "side" || b.Kind == "dec" || b.Kind == "seq" {
+	if b.Kind == "task" || b.Kind == "empty" || b.Kind == "side" || b.Kind == "dec" || b.Kind == "drop" || b.Kind == "seq" {
 		return d
 	}
 	return d + 1
@@ -98,11 +104,11 @@ type Program struct {
 }
 
 type renderer struct {
-	nt, nx, np, no, nl, ns, nside, ndec int
-	nv                                  int
-	p                                   *Program
-	maxVars                             int
-	stack                               []string
+	nt, nx, np, no, nl, ns, nside, ndec, ndrop int
+	nv                                         int
+	p                                          *Program
+	maxVars                                    int
+	stack                                      []string
 }
 
 func (r *renderer) ctx() string {
@@ -161,6 +167,13 @@ func (r *renderer) render(g *Graph, b *Block) (entry, exit *Node) {
 		g.Link(t, s, Var(r.nextVar()))
 		g.Link(s, e, nil)
 		return t, t
+	case "drop":
+		// task dp<k> -[v]-> task dq<k>: with v false the token ends at dp<k>
+		r.ndrop++
+		t := r.add(g, Task, fmt.Sprintf("dp%d", r.ndrop))
+		u := r.add(g, Task, fmt.Sprintf("dq%d", r.ndrop))
+		g.Link(t, u, Var(r.nextVar()))
+		return t, u
 	case "dec":
 		// decision task: its answer writes the boolean result r<k> (declared), and its own two
 		// conditional outgoing flows read it: r<k> -> da<k>, !r<k> -> db<k>; both merge again.
@@ -508,7 +521,7 @@ func Tags(b *Block) string {
 	rec = func(x *Block, anc []string) {
 		k := x.Kind
 		switch k {
-		case "xor", "par", "incl", "loop", "sub", "side", "dec":
+		case "xor", "par", "incl", "loop", "sub", "side", "dec", "drop":
 			set[k] = true
 			for _, a := range anc {
 				set[a+">"+k] = true
